@@ -7,6 +7,7 @@ V=$(cd "$(dirname "$0")/.." && pwd)
 SRC=${VP_RUN_REPO:-${MUT_REPO:-}}
 if [ -z "$SRC" ]; then echo "need VP_RUN_REPO or MUT_REPO (a scratch copy of /repo)"; exit 2; fi
 export VERIF_REPO=$SRC
+export VERIF_EVIDENCE_DIR=$V/mutant_results/evidence   # never overwrite /verif/evidence with a run against a changed tree
 cd "$V"
 [ -x tools/bin/gogen ] || ./check --setup > setup.log 2>&1
 ids=${@:-$(ls seeded)}
